@@ -31,7 +31,7 @@ def judge_bytes(ctx, g, bs, tag, sigp):
         return "RecursionError"
     except Exception as e:  # noqa: BLE001
         return exc_name(g, e)
-    probs = content.coherence(g, ir) + content.identity_check(g, ir)
+    probs = protocheck.safe_coherence(g, ir)
     for p in probs[:2]:
         ctx.add("oracle", sigp + ":incoherent", "load returned an IR that is not coherent: " + p, {"tag": tag, "file": bs.hex()})
     if not probs:
